@@ -9,7 +9,7 @@
     and the identifiers the rewrite writes into the SQL — always have the same
     length (C02_star_arity_partial), so inference and embedded text cannot drift apart
     for a star whatever the tables in scope are. *)
-From Verif Require Import Model.Compile Spec.PgScope Judge.JQ Judge.J02 Proofs.ColumnsFacts Proofs.CompileFacts2 Proofs.ArityFacts Proofs.ScopeRefine Proofs.ScopeRefineT Proofs.SelectRefine Proofs.DeleteRefine.
+From Verif Require Import Model.Compile Spec.PgScope Judge.JQ Judge.J02 Proofs.ColumnsFacts Proofs.CompileFacts2 Proofs.ArityFacts Proofs.ScopeRefine Proofs.ScopeRefineT Proofs.SelectRefine Proofs.DeleteRefine Proofs.UpdateRefine Proofs.InsertRefine.
 Open Scope string_scope.
 Open Scope list_scope.
 
@@ -150,6 +150,58 @@ Theorem C02_simple_delete_partial : forall (e : env) (strict deep : bool) (stmt 
   end.
 Proof. exact simple_delete_refines_t. Qed.
 Print Assumptions C02_simple_delete_partial.
+
+(** ... for UPDATE <base table> SET ... [WHERE ...] RETURNING <targets> (no FROM: with FROM the
+    order of the scope differs - the finding update_from_returning_order), given that the SET
+    targets are columns of the relation (sqlc checks those only next to a parameter) ... *)
+Theorem C02_simple_update_partial : forall (e : env) (strict deep : bool) (stmt : node) (targets : list node) (f : nat),
+  kind_of stmt = "UpdateStmt" -> kid "WithClause" stmt = Nil ->
+  kid "ReturningList" stmt = NList targets ->
+  kind_of (kid "Relation" stmt) = "RangeVar" -> kid "FromClause" stmt = NList [] ->
+  (forall sc, spec_scope (env_cat e) [kid "Relation" stmt] = POk sc ->
+     check_refs [firstn 1 sc]
+       (map (fun t => Node "ColumnRef" [] [] [("Fields", NList [Node "String" [("Str", str_of "Name" t)] [] []])])
+            (kid_items "TargetList" stmt)) = POk tt /\
+     check_refs [sc] (if strict then level_refs (NList (map (kid "Val") (kid_items "TargetList" stmt))) else []) = POk tt) ->
+  (if strict then level_refs (NList [kid "WhereClause" stmt; kid "FromClause" stmt])
+   else paired_refs (NList [kid "WhereClause" stmt; kid "FromClause" stmt])) = [] ->
+  level_subselects (NList ([kid "WhereClause" stmt; kid "FromClause" stmt] ++ map (kid "Val") targets
+                           ++ map (kid "Val") (kid_items "TargetList" stmt))) = [] ->
+  (if deep then level_refs (NList (map (kid "Val") targets)) else direct_refs targets) = refs_of targets ->
+  (forall sc, spec_scope (env_cat e) [kid "Relation" stmt] = POk sc ->
+     Forall (fun it => NoDup (map sc_name (si_cols it))) sc /\ Forall (target_ok sc) targets) ->
+  forall g,
+  match describe (env_cat e) strict deep (S (S f)) [] [] stmt, output_columns (S g) e [] stmt with
+  | POk row, Ok cols => Forall2 row_rel row cols
+  | PErr _, Err _ => True
+  | _, _ => False
+  end.
+Proof. exact simple_update_refines_t. Qed.
+Print Assumptions C02_simple_update_partial.
+
+(** ... and for INSERT INTO <base table> (...) VALUES / SELECT ... RETURNING <targets>, given
+    that the listed columns exist and the source is fine by the reference semantics. *)
+Theorem C02_simple_insert_partial : forall (e : env) (strict deep : bool) (stmt : node) (targets : list node) (f : nat),
+  kind_of stmt = "InsertStmt" -> kid "WithClause" stmt = Nil ->
+  kid "ReturningList" stmt = NList targets ->
+  kind_of (kid "Relation" stmt) = "RangeVar" ->
+  (forall sc, spec_scope (env_cat e) [kid "Relation" stmt] = POk sc ->
+     check_refs [sc] (map (fun t => Node "ColumnRef" [] [] [("Fields", NList [Node "String" [("Str", str_of "Name" t)] [] []])])
+                          (kid_items "Cols" stmt)) = POk tt) ->
+  (is_kind "SelectStmt" (kid "SelectStmt" stmt) = true ->
+     exists r0, describe (env_cat e) strict deep (S f) [] [] (kid "SelectStmt" stmt) = POk r0) ->
+  level_subselects (NList ([] ++ map (kid "Val") targets ++ [])) = [] ->
+  (if deep then level_refs (NList (map (kid "Val") targets)) else direct_refs targets) = refs_of targets ->
+  (forall sc, spec_scope (env_cat e) [kid "Relation" stmt] = POk sc ->
+     Forall (fun it => NoDup (map sc_name (si_cols it))) sc /\ Forall (target_ok sc) targets) ->
+  forall g,
+  match describe (env_cat e) strict deep (S (S f)) [] [] stmt, output_columns (S g) e [] stmt with
+  | POk row, Ok cols => Forall2 row_rel row cols
+  | PErr _, Err _ => True
+  | _, _ => False
+  end.
+Proof. exact simple_insert_refines_t. Qed.
+Print Assumptions C02_simple_insert_partial.
 
 (** the hypotheses are met by SELECT id, x.STAR, count(STAR) FROM t AS x (and the
     conclusion is the non-trivial branch: both accept, three columns) *)
